@@ -385,7 +385,7 @@ theorem dataclass_receive_first_decodes_as_base_witness :
     Dc.lookupNames parent (Dc.run all parent 3 [.inst 0]) 3 1 = ["x", "y"] := by
   decide
 
-/-- a sequence field comes back in its annotated container (list, tuple or set); was FALSE before a531c88
+/-- a sequence field comes back in its annotated container (list, tuple or set); was FALSE before 60e7956
     (fixed finding `DataClassPayload:tuple-set-field-decodes-as-list`), now the full statement -/
 theorem dataclass_container_roundtrip (k : Dc.Container) : Dc.decodedContainer k = k := by
   cases k <;> rfl
